@@ -4,7 +4,7 @@ one() {
   P=$(readlink -f "$1"); D=$(mktemp -d /var/tmp/tryp.XXXXXX)
   rsync -a --exclude=.git --exclude=single_nodehost_test_dir_safe_to_delete /repo/ "$D/repo/"; mkdir -p "$D/verif"; cp /verif/known_findings.txt "$D/verif/"
   if ! ( cd "$D/repo" && GIT_DIR=/nonexistent git apply --whitespace=nowarn "$P" ); then echo "== $P: PATCH-FAIL"; rm -rf "$D"; return; fi
-  out=$(/verif/bin/dbcheck -prop all -repo "$D/repo" -verif "$D/verif" -noselftest 2>&1 | grep -E "^ *(VIOLATION|UNDECIDED|KNOWN)" | grep -v "^VIOLATION" | sed "s#$D/repo/##g" | cut -c1-330 | sort -u)
+  out=$(${DBCHECK:-/verif/bin/dbcheck} -prop all -repo "$D/repo" -verif "$D/verif" -noselftest 2>&1 | grep -E "^ *(VIOLATION|UNDECIDED|KNOWN)" | grep -v "^VIOLATION" | sed "s#$D/repo/##g" | cut -c1-330 | sort -u)
   echo "== $P"; echo "${out:-  (nothing reported)}"
   rm -rf "$D"
 }
